@@ -46,6 +46,8 @@ pub fn issuer_alphabet() -> Vec<IssOp> {
         IssOp { name: "u1_custom_ed_decoy_json", claims: u1(), strat: c(&["$.b.c", "$.d[1]"]), hk: Hk::Ed, decoys: true, fmt: Fmt::Json, fails: false },
         IssOp { name: "u2_all_ed_compact", claims: u2(), strat: Strat::All, hk: Hk::Ed, decoys: false, fmt: Fmt::Compact, fails: false },
         IssOp { name: "fail_reserved_dots", claims: bad_dots, strat: Strat::Top, hk: Hk::None, decoys: true, fmt: Fmt::Compact, fails: true },
+        // the first operation again, in the other serialization only
+        IssOp { name: "u1_all_nokey_json", claims: u1(), strat: Strat::All, hk: Hk::None, decoys: false, fmt: Fmt::Json, fails: false },
     ]
 }
 
@@ -190,6 +192,12 @@ pub fn holder_alphabet() -> Vec<HoldOp> {
         HoldOp { name: "p1_nokb", sel: obj(json!({"a": true})), kb: 0, fails: false },
         HoldOp { name: "fail_unknown_object", sel: obj(json!({"zz": {"q": true}})), kb: 1, fails: true },
         HoldOp { name: "fail_kb_alg_not_for_this_key", sel: obj(json!({"a": true})), kb: 4, fails: true },
+        // a name that does not exist where it is asked for but does exist one level down (b.c): must fail, and must
+        // not make the later, correctly addressed selection of b.c fail
+        HoldOp { name: "fail_name_that_exists_deeper", sel: obj(json!({"c": true})), kb: 0, fails: true },
+        // two key-binding requests over the same selection whose (nonce, aud) pairs are re-splits of one string
+        HoldOp { name: "p1_kb_ab_c", sel: obj(json!({"a": true})), kb: 6, fails: false },
+        HoldOp { name: "p1_kb_a_bc", sel: obj(json!({"a": true})), kb: 7, fails: false },
         // nonce and audience but no key: an error on a fresh instance, hence an error after any history
         HoldOp { name: "fail_nonce_aud_without_key", sel: obj(json!({"a": true})), kb: 5, fails: true },
         // fails only after genuine hidden claims were already picked
@@ -204,6 +212,8 @@ fn kb_of(op: &HoldOp) -> KbArgs {
         0 => KbArgs::none(),
         3 => KbArgs { nonce: Some(N[1].into()), aud: None, key: None, alg: None },
         5 => KbArgs { nonce: Some(N[1].into()), aud: Some(A[1].into()), key: None, alg: None },
+        6 => KbArgs { nonce: Some("ab".into()), aud: Some("c".into()), key: Hk::Es.enc(0), alg: Some("ES256".into()) },
+        7 => KbArgs { nonce: Some("a".into()), aud: Some("bc".into()), key: Hk::Es.enc(0), alg: Some("ES256".into()) },
         // EdDSA asked for with an EC key: this call must fail and must not affect later ones
         4 => KbArgs { nonce: Some(N[1].into()), aud: Some(A[1].into()), key: Hk::Es.enc(0), alg: Some("EdDSA".into()) },
         k => KbArgs { nonce: Some(N[k as usize].into()), aud: Some(A[k as usize].into()), key: Hk::Es.enc(0), alg: Some("ES256".into()) },
@@ -282,7 +292,8 @@ pub fn run_holder_seq_on(cred: &Cred, alpha: &[HoldOp], seq: &[usize], which: &s
         if pp.kb.is_some() != (op.kb != 0 && op.kb != 3) {
             l.violation(mk("wrong_kb", "c11_kb_presence", format!("kb present={} requested={}", pp.kb.is_some(), op.kb != 0)));
         }
-        let (aud, nonce) = if op.kb != 0 { (Some(A[op.kb as usize]), Some(N[op.kb as usize])) } else { (None, None) };
+        let kba = kb_of(op);
+        let (aud, nonce) = if op.kb != 0 { (kba.aud.as_deref(), kba.nonce.as_deref()) } else { (None, None) };
         let v = drive::verify(&p, keys::issuer_dec(cred.cfg.alg, 0), aud, nonce, fmt);
         let expect = with_cnf(view(&cred.u, &cred.h, &d), cred.cfg.hk.jwk_value(0));
         match &v {
@@ -346,7 +357,7 @@ pub fn run(rep: &Report) {
     // issuer: full alphabet
     let seqs = sequences(ia.len(), full_len);
     par_for(rep, seqs.len(), |i, l| run_issuer_seq(&ia, &seqs[i], Alg::HS256, l));
-    rep.scope_done(json!({"scope": format!("issuer: every sequence of length <= {full_len} over the 12-operation alphabet (8 succeeding, 4 failing), HS256 issuer key"), "sequences": seqs.len()}));
+    rep.scope_done(json!({"scope": format!("issuer: every sequence of length <= {full_len} over the 13-operation alphabet (9 succeeding, 4 failing; two operations differ in the serialization only), HS256 issuer key"), "sequences": seqs.len()}));
     rep.sample(json!({"instance": "issuer", "sequence": seqs[seqs.len() / 2].iter().map(|i| ia[*i].name).collect::<Vec<_>>()}));
     // issuer: long sequences over a small core
     let core_ids: Vec<usize> = if quick { vec![6, 3, 2] } else { vec![6, 3, 2, 4, 8] };
@@ -367,9 +378,10 @@ pub fn run(rep: &Report) {
             rep.machinery_error("could not issue the C11 holder credential".into());
             continue;
         };
+        let full_len = if quick { 4 } else { 5 };
         let hs = sequences(ha.len(), full_len);
         par_for(rep, hs.len(), |i, l| run_holder_seq(&cred, &ha, &hs[i], l));
-        rep.scope_done(json!({"scope": format!("holder built from a {} SD-JWT: every sequence of length <= {full_len} over the 13-operation alphabet (7 succeeding, 6 failing)", fmt.name()), "sequences": hs.len()}));
+        rep.scope_done(json!({"scope": format!("holder built from a {} SD-JWT: every sequence of length <= {full_len} over the 16-operation alphabet (9 succeeding, 7 failing)", fmt.name()), "sequences": hs.len()}));
         let hcore_ids: Vec<usize> = if quick { vec![2, 1, 3] } else { vec![2, 1, 3, 4, 11] };
         let hcore: Vec<HoldOp> = hcore_ids.iter().map(|i| ha[*i].clone()).collect();
         let hl = sequences(hcore.len(), long_len);
